@@ -54,6 +54,8 @@ func checkC07(c *Ctx) {
 	c.subscribeLoop(sub)
 	c.unsubscribeLoop(unsub)
 	c.grantedQosCap()
+	// the acknowledgement can be written at every size: Len() of the responses sizes the header for the new remaining length
+	c.lenOrdering()
 }
 
 // afterNever: no b after a (within the case).
@@ -123,7 +125,19 @@ func iterationNodes(g *paths.Graph, l *ir.Loop) (body []paths.Node, end func(pat
 
 // subscribeLoop: P4 for the per-filter loop of the SUBSCRIBE handler.
 func (c *Ctx) subscribeLoop(fn *ssa.Function) {
-	l := loopOver(fn, func(call *ssa.Call) bool { return ir.IsMethod(call.Common(), pkgMessage, "SubscribeMessage", "Topics") })
+	isTopics := func(call *ssa.Call) bool { return ir.IsMethod(call.Common(), pkgMessage, "SubscribeMessage", "Topics") }
+	l := loopOver(fn, isTopics)
+	// several loops may range over the filters: the per-filter loop is the one that registers them in the tree
+	for _, cand := range ir.Loops(fn) {
+		if !rangesOverCallResult(cand, isTopics, 0) {
+			continue
+		}
+		for _, call := range c.calls(fn, pkgTopics, "Manager", "Subscribe") {
+			if cand.Blocks[call.Block()] {
+				l = cand
+			}
+		}
+	}
 	pos := c.P.Pos(fn.Pos())
 	if l == nil {
 		c.R.Bad(ruleP4, "SUBSCRIBE-loop:ranges-over-request-filters", pos, "the SUBSCRIBE handler has no loop over msg.Topics(): not every requested filter takes effect")
